@@ -1691,6 +1691,26 @@ def warm_up(only=None):
             pass
 
 
+
+def fn_compose_history(items):
+    """item = [N, [letter indices]]: compose() is an in-place operation on its receiver that must never change its
+    argument, and the two circuits must share no mutable layer data: after a.compose(b) at every split point
+    (incl. the empty receiver / empty argument) two gates are added to one circuit and the other is re-observed
+    (gate inventory of its layer chain, action on the Pauli group)."""
+    from .. import circ
+    pk = circ.PKS['py']
+    n = 0
+    viol = []
+    for item in items:
+        N, prog = int(item[0]), [int(i) for i in item[1]]
+        A = circ.alphabet('py', N)
+        letters = [A[i] for i in prog]
+
+        def vio(sig, msg, obs=None, exp=None, item=item, letters=letters):
+            viol.append(V(sig, item, 'N=%d program %s: %s' % (N, [l.name for l in letters], msg), obs, exp))
+        n += circ.compose_history(pk, 'C17/py', N, letters, pk.inputs(N), vio)
+    return {'n': n, 'nt': n, 'viol': viol}
+
 def legs(tier, for_replay=False):
     t = 0 if tier == 'quick' else 1
     seed = 0
@@ -1774,4 +1794,10 @@ def legs(tier, for_replay=False):
     out.append(Leg('torch', fn_torch, items, chunk=1, src_states=len(items),
                    bound='torchclifford: one tableau per density matrix (N=1 all 7; N=2 %s): copy / to_state / to_map / expect / compose / inverse / '
                          'rotate_by / transform_by / gates / circuits' % ('all 91' if t else 'every 3rd of 91')))
+    from .. import circ as _circ
+    if not for_replay:
+        _circ.warmup('py')
+    ch = [it for N in (2, 3) for it in _circ.programs('py', N, 2) if len(it[1]) >= 1]
+    out.append(Leg('compose_histories', fn_compose_history, ch, chunk=16,
+                   bound='all programs of 1-2 gates over the C09 alphabets (12 letters N=2, 17 letters N=3): a.compose(b) at every split point, then two take() on one circuit, re-observe the other (layer-chain inventory and action)'))
     return out
